@@ -14,7 +14,14 @@
 //   mut cases <bases.ndjson> <cases.ndjson> <report.ndjson> <start index> <cursor file> <tier>
 //   mut rand  <seed> <first> <count> <report.ndjson> <cursor file>
 //   mut nest  <depth>                      (known finding F7: run by the check in a child process with a bounded stack)
-//   mut directed <report.ndjson>           (inputs of the repaired findings F4, F5, F6, F18, F28, F35 as ordinary judged cases)
+// The inputs of the repaired findings F4, F5, F6, F18, F28, F35 are members of the enumerated space (count words, frame lengths, splices of
+// payload-only sub-Messages, type substitutions, the empty tunnel fragment) and are judged like every other case.
+//
+// Targets per encoding of a case: msg -> UnflattenFromBytes, then framed into the MessageIOGateway configurations (+ SetMaxIncomingMessageSize
+// at body / body-1), wrapped into a WebSocket frame / a tunnel fragment / a mini-tunnel chunk with a slave MessageIOGateway, and as raw bytes
+// into the text / telnet / raw / SLIP gateways and the WebSocket server; tmpl -> TemplatedUnflatten with the template of the base Message,
+// and behind the frame that creates that template into TemplatingMessageIOGateway; frame -> the stream gateways in three segmentations;
+// tun / mtun -> the packet tunnels in four configurations, followed by the valid packet.
 #include <string>
 #include <vector>
 #include <map>
@@ -78,7 +85,7 @@ static void OnAlarm(int)
    if (g_repfd >= 0) (void) !write(g_repfd, b, n);
    _exit(3);
 }
-static unsigned g_watchdogSecs = 10;
+static unsigned g_watchdogSecs = 40;     // generous: the machine is shared, and a 4 GB allocation under AddressSanitizer can take seconds
 static void Arm(const char * target) {g_target = target; g_evals[target]++; alarm(g_watchdogSecs);}
 static void Disarm() {alarm(0);}
 
@@ -728,8 +735,10 @@ static void RandomCase(uint64 seed)
       MessageIOGateway tx(enc); FeedIO * tio = new FeedIO; tx.SetDataIO(DataIORef(tio)); for (size_t i=0; i<msgs.size(); i++) (void) tx.AddOutgoingMessage(msgs[i]);
       stream = SendAll(tx, tio); for (int i=0; i<nmut; i++) Mutate(stream);
       Arm("MessageIOGateway(random stream)");
-      MessageIOGateway rx; if (which == 2) rx.SetMaxIncomingMessageSize(100000); FeedIO * rio = new FeedIO; rx.SetDataIO(DataIORef(rio));
-      if (!((HugeFrame(stream))&&(which != 2)&&(seed%16 != 0))) {rio->Set(stream, mode); (void) Pump(rx, rio, NULL); rx.Reset();}
+      // without a maximum a declared body of up to 4 GB is allocated before it arrives (by design): one seed in 16 does that, the others allow 16 MB
+      MessageIOGateway rx; if (which == 2) rx.SetMaxIncomingMessageSize(100000); else if (seed%16 != 0) rx.SetMaxIncomingMessageSize(1<<24);
+      FeedIO * rio = new FeedIO; rx.SetDataIO(DataIORef(rio));
+      rio->Set(stream, mode); (void) Pump(rx, rio, NULL); rx.Reset();
       Disarm();
    }
    else if (which == 3)
